@@ -32,7 +32,14 @@ fn drive<T: Val, O: Enc, S: Getter<O, E>>(
     for ev in events {
         set(input, ev);
         let ret = stream.update();
-        let got = get2::<O, S>(stream);
+        let mut got = get2::<O, S>(stream);
+        // A stateful stream latches at `update()`: what its input returns AFTERWARDS must not show through `get()`.
+        // Disturb the input (an error no event ever carries), read again, and flag a difference like an impure read.
+        set(input, Err(Error::Other(222)));
+        let after = stream.get().enc();
+        if !got.ends_with("!impure") && after != got {
+            got = format!("{}!impure", got);
+        }
         out.push(format!("{}/{}", ret.enc(), got));
     }
 }
@@ -198,7 +205,15 @@ fn freeze<T: Val>(toks: &[&str], out: &mut Vec<String>) -> R<()> {
         set(&cond, c);
         set(&input, i);
         let ret = s.update();
-        let got = get2::<T, _>(&s);
+        let mut got = get2::<T, _>(&s);
+        // freeze returns what its input returned AT THE LAST UPDATE with a false condition: flipping the condition to false and
+        // changing the input after the update must not show through `get()`
+        set(&cond, Ok(Some(Datum::new(Time(0), false))));
+        set(&input, Err(Error::Other(222)));
+        let after = s.get().enc();
+        if !got.ends_with("!impure") && after != got {
+            got = format!("{}!impure", got);
+        }
         out.push(format!("{}/{}", ret.enc(), got));
     }
     Ok(())
@@ -273,7 +288,13 @@ fn cpid(toks: &[&str], out: &mut Vec<String>) -> R<()> {
             }
             CpidEv::Lr => format!("lr={}", s.get_last_request().enc()),
         };
-        let got = get2::<f32, _>(&s);
+        let mut got = get2::<f32, _>(&s);
+        // the controller latches at `update()`: a later change of what its input returns must not show through `get()`
+        set(&input, Err(Error::Other(222)));
+        let after = s.get().enc();
+        if !got.ends_with("!impure") && after != got {
+            got = format!("{}!impure", got);
+        }
         out.push(format!("{}/{}", head, got));
     }
     Ok(())
